@@ -448,8 +448,12 @@ func check(c Case) error {
 				if err != nil {
 					return vk.Harnessf("marshal: %v", err)
 				}
-				res = codon.ParseCodonJSON(b)
-				vk.Scribble(b)
+				buf, intact := vk.Guarded(b)
+				res = codon.ParseCodonJSON(buf)
+				if err := intact(); err != nil {
+					return fmt.Errorf("ParseCodonJSON: %v", err)
+				}
+				vk.Scribble(buf)
 			} else {
 				p := filepath.Join(vk.WorkDir(), fmt.Sprintf("table-%d.json", step))
 				vk.StaleFile(p, 40000)
